@@ -22,9 +22,9 @@ def run(chk):
     quick = chk.tier == "quick"
     cases = s5.enumerate_formspace(chk)
     fcases = s5.enumerate_formspace(chk, facets=True)
-    must = [c for c in cases if c["term"] in ("cond", "absmax")]
+    must = [c for c in cases if c["term"] in ("cond", "absmax", "mathfn", "mathfn2", "bessel")]
     sel = (s5.sample_cases(cases, 14 if quick else 200, chk.seed, max_cost=12 if quick else 100)
-           + s5.sample_cases(must, 4 if quick else 30, chk.seed + 1, max_cost=12 if quick else 100))
+           + s5.sample_cases(must, 10 if quick else 60, chk.seed + 1, max_cost=12 if quick else 100))
     fsel = s5.sample_cases([c for c in fcases if c["cell"] != "prism"], 8 if quick else 120, chk.seed + 2, max_cost=12 if quick else 100)
     items = []
     for i, c in enumerate(sel):
